@@ -1380,6 +1380,7 @@ def extra_checks(eng):
         yield ("strategies:" + name, got == keys, "strategy names %r, expected %r" % (sorted(got), sorted(keys)))
     yield ("default:lowpass", al.lowpass.default is al.lowpass.pole, "lowpass.default is not lowpass.pole")
     yield ("default:highpass", al.highpass.default is al.highpass.z, "highpass.default is not highpass.z")
+    yield ("default:erb", al.erb.default is al.erb.gm90, "erb.default is not erb.gm90 (the strategy registered first)")
     yield ("alias:comb", al.comb.alpha is al.comb.fb and al.comb.fb_tau is al.comb.tau and al.comb.ff_alpha is al.comb.ff,
            "comb aliases do not name the same strategies")
 
